@@ -24,6 +24,12 @@ def check(run):
     rng = run.rng
     w0 = spherical.Wigner(1, mp_max=0)
     wf = spherical.Wigner(1)
+    # "evaluate to c / v.n" and "rotate like the vector" are statements about the weights, whichever calculator evaluates them:
+    # calculators larger than the data, restricted mp_max, both strategies
+    calcs = [("Wigner(1,mp_max=0)", w0), ("Wigner(1)", wf), ("Wigner(3)", spherical.Wigner(3)), ("Wigner(8)", spherical.Wigner(8)),
+             ("Wigner(5,mp_max=1)", spherical.Wigner(5, mp_max=1)), ("Wigner(16)", spherical.Wigner(16))]
+    evals = [(nm, w, h) for nm, w in calcs for h in (True, False)]
+    rots = [(nm, w, h) for nm, w in calcs if w.mp_max >= w.ell_max for h in (True, False)]   # rotate documents that it needs the full matrix
     dirs = [(0.0, 0.0), (math.pi, 0.0), (math.pi / 2, 0.0), (1e-9, 2.0), (math.pi - 1e-9, 1.0)] + [(math.acos(rng.uniform(-1, 1)), rng.uniform(0, 2 * math.pi)) for _ in range(8 if quick else 60)]
     for _ in range(12 if quick else 120):
         c = complex(rng.gauss(0, 3), rng.gauss(0, 3)) if rng.random() < 0.8 else complex(rng.choice([0.0, 1.0, -2.5]))
@@ -33,10 +39,11 @@ def check(run):
         if not (abs(back - c) <= 4 * EPS * abs(c)):
             run.violation("constant-round-trip", "constant_from_ell_0_mode", {"c": [c.real, c.imag]}, c, back)
         m = spherical.Modes(np.array([wgt, 0, 0, 0], dtype=complex), spin_weight=0, ell_min=0, ell_max=1)
-        for th, ph in dirs[:6]:
-            val = complex(w0.evaluate(m, quaternionic.array.from_spherical_coordinates(th, ph), horner=True))
-            if not (abs(val - c) <= 16 * EPS * max(abs(c), 1e-300)):
-                run.violation("constant-evaluation", "constant_as_ell_0_mode", {"c": [c.real, c.imag], "theta": th, "phi": ph}, c, val)
+        for k, (th, ph) in enumerate(dirs[:6]):
+            for nm, w, h in (evals if k == 0 else [evals[rng.randrange(len(evals))]]):
+                val = complex(w.evaluate(m, quaternionic.array.from_spherical_coordinates(th, ph), horner=h))
+                if not (abs(val - c) <= 16 * EPS * max(abs(c), 1e-300)):
+                    run.violation("constant-evaluation", "constant_as_ell_0_mode", {"c": [c.real, c.imag], "theta": th, "phi": ph, "calculator": nm, "horner": h}, c, val)
         vec = np.array([complex(rng.gauss(0, 1), rng.gauss(0, 1) if rng.random() < 0.5 else 0.0) for _ in range(3)])
         if rng.random() < 0.5:
             vec = vec.real.astype(float)
@@ -47,23 +54,32 @@ def check(run):
         if wv.shape != (3,) or not np.allclose(vb, vec, rtol=0, atol=8 * EPS * max(float(np.max(np.abs(vec))), 1e-300)):
             run.violation("vector-round-trip", "vector_from_ell_1_modes", inp, str(vec), str(vb))
         m = spherical.Modes(np.concatenate([[0], wv]).astype(complex), spin_weight=0, ell_min=0, ell_max=1)
-        for th, ph in dirs:
+        bad = False
+        for k, (th, ph) in enumerate(dirs):
             n = np.array([math.sin(th) * math.cos(ph), math.sin(th) * math.sin(ph), math.cos(th)])
-            val = complex(w0.evaluate(m, quaternionic.array.from_spherical_coordinates(th, ph), horner=True))
             want = complex(np.dot(vec, n))
-            if not (abs(val - want) <= 32 * EPS * max(float(np.max(np.abs(vec))), 1e-300)):
-                run.violation("vector-evaluation", "vector_as_ell_1_modes", {**inp, "theta": th, "phi": ph}, want, val)
+            for nm, w, h in (evals if k in (2, 5) else [evals[0], evals[rng.randrange(len(evals))]]):
+                val = complex(w.evaluate(m, quaternionic.array.from_spherical_coordinates(th, ph), horner=h))
+                if not (abs(val - want) <= 32 * EPS * max(float(np.max(np.abs(vec))), 1e-300)):
+                    run.violation("vector-evaluation", "vector_as_ell_1_modes", {**inp, "theta": th, "phi": ph, "calculator": nm, "horner": h}, want, val)
+                    bad = True
+                    break
+            if bad:
                 break
+        val = complex(m.evaluate(quaternionic.array.from_spherical_coordinates(*dirs[5])))
+        n = np.array([math.sin(dirs[5][0]) * math.cos(dirs[5][1]), math.sin(dirs[5][0]) * math.sin(dirs[5][1]), math.cos(dirs[5][0])])
+        if not (abs(val - complex(np.dot(vec, n))) <= 32 * EPS * max(float(np.max(np.abs(vec))), 1e-300)):
+            run.violation("vector-evaluation", "vector_as_ell_1_modes", {**inp, "theta": dirs[5][0], "phi": dirs[5][1], "calculator": "Modes.evaluate"}, complex(np.dot(vec, n)), val)
         # rotation: rotating the weights by conj(R) corresponds to rotating the vector by R
         R = quaternionic.array(helpers.random_rotor(rng)) if rng.random() < 0.8 else quaternionic.array([0.0, 0.6, 0.8, 0.0])
         vr = vec.real.astype(float) if np.iscomplexobj(vec) else vec
         mr = spherical.Modes(np.concatenate([[0], spherical.vector_as_ell_1_modes(vr)]).astype(complex), spin_weight=0, ell_min=0, ell_max=1)
-        for horner in (True, False):
-            rot = wf.rotate(mr, R.conjugate(), horner=horner).ndarray[1:]
+        want = (R * quaternionic.array.from_vector_part(vr) * R.conjugate()).vector
+        for nm, w, horner in rots:
+            rot = w.rotate(mr, R.conjugate(), horner=horner).ndarray[1:]
             v2 = spherical.vector_from_ell_1_modes(rot)
-            want = (R * quaternionic.array.from_vector_part(vr) * R.conjugate()).vector
             if not np.allclose(v2.real, want, rtol=0, atol=32 * EPS * max(float(np.max(np.abs(vr))), 1e-300)) or not np.allclose(v2.imag, 0, atol=32 * EPS * max(float(np.max(np.abs(vr))), 1e-300)):
-                run.violation("vector-rotation", f"rotate[horner={horner}]", {**inp, "R": list(R.ndarray)}, str(want), str(v2))
+                run.violation("vector-rotation", f"rotate[horner={horner}]", {**inp, "R": list(R.ndarray), "calculator": nm}, str(want), str(v2))
     # arrays of vectors / constants along the last axis
     for shape in [(2,), (2, 3), (1, 2, 2)]:
         V = np.array([rng.gauss(0, 1) for _ in range(int(np.prod(shape)) * 3)]).reshape(shape + (3,))
